@@ -368,7 +368,9 @@ fn parse_token(text: &str) -> IResult<&str, Token> {
 
 fn parse_token_not_semicolon(text: &str) -> IResult<&str, Token> {
     let (rest, token) = parse_token(text)?;
-    if token == Token::Semicolon {
+    // A value ends at the `;`, or at the `}` which closes the block when
+    // the final `;` has been left out.
+    if token == Token::Semicolon || token == Token::CloseBrace {
         fail(text)
     } else {
         Ok((rest, token))
@@ -787,10 +789,15 @@ fn parse_content(value: &RawValue) -> Result<String, nom::Err<nom::error::Error<
     Ok(result)
 }
 
+fn no_declaration(text: &str) -> IResult<&str, Option<Declaration>> {
+    Ok((text, None))
+}
+
 pub(crate) fn parse_rules(text: &str) -> IResult<&str, Vec<Declaration>> {
     separated_list0(
-        tuple((tag(";"), skip_optional_whitespace)),
-        parse_declaration,
+        tuple((skip_optional_whitespace, tag(";"), skip_optional_whitespace)),
+        // Empty declarations (as in `color: red;;`) are allowed.
+        alt((parse_declaration, no_declaration)),
     )(text)
     .map(|(rest, v)| (rest, v.into_iter().flatten().collect()))
 }
@@ -1070,8 +1077,25 @@ fn parse_at_rule(text: &str) -> IResult<&str, ()> {
     skip_to_end_of_statement(rest)
 }
 
+/// Error recovery: skip a rule set we can't parse (e.g. an unsupported
+/// selector) up to the end of its block, so that the rest of the style sheet
+/// is still used.
+fn skip_invalid_ruleset(text: &str) -> IResult<&str, ()> {
+    let (rest, _) = skip_to_end_of_statement(text)?;
+    if rest.len() == text.len() {
+        // Nothing to skip (end of input or a stray `}`)
+        fail(text)
+    } else {
+        Ok((rest, ()))
+    }
+}
+
 fn parse_statement(text: &str) -> IResult<&str, Option<RuleSet>> {
-    alt((map(parse_ruleset, Some), map(parse_at_rule, |_| None)))(text)
+    alt((
+        map(parse_ruleset, Some),
+        map(parse_at_rule, |_| None),
+        map(skip_invalid_ruleset, |_| None),
+    ))(text)
 }
 
 pub(crate) fn parse_stylesheet(text: &str) -> IResult<&str, Vec<RuleSet>> {
